@@ -56,3 +56,49 @@ func VerifH_C14_NextSkipNext() {
 		vCover("v2-done", true)
 	}
 }
+
+// VerifH_C14_VarintBoundary: the same oracle where the first section's size straddles the 1-byte /
+// 2-byte length-prefix boundary (CID 6 bytes + data 121 or 122 bytes = 127 / 128), read with Next
+// and followed by SkipNext, whose metadata exposes the reader's running offset.
+func VerifH_C14_VarintBoundary() {
+	root := vIdentityCid([]byte("r"))
+	hdr := vHeaderV1(root)
+	L := 121 + vChoose("dataLen", 2)
+	d1 := make([]byte, L)
+	d1[0] = vU8("d1first")
+	c1 := vCidT("c1")
+	vAssume(c1.Prefix().MhType != 0)
+	vAssume(vValidBlock(c1, d1))
+	secs := []vSection{{c: c1, data: d1}, vValidSection("s2", 1)}
+	payload := vPayload(hdr, secs)
+	base := 0
+	file := payload
+	if vChoose("v2", 2) == 1 {
+		base = PragmaSize + HeaderSize
+		file = vWrapV2(payload, 0, 0, nil)
+	}
+	var src io.Reader
+	if vChoose("seekable", 2) == 1 {
+		src = &vSeekStream{vStream{data: file}}
+	} else {
+		src = &vStream{data: file}
+	}
+	br, err := NewBlockReader(src)
+	vAssert("open", err == nil)
+	first := vChoose("firstSkip", 2) == 1
+	if first {
+		md, err := br.SkipNext()
+		vAssert("skip1-ok", err == nil && md.Offset == secs[0].off && md.Size == uint64(L))
+	} else {
+		blk, err := br.Next()
+		vAssert("next1-ok", err == nil && blk.Cid().Equals(c1))
+	}
+	md, err := br.SkipNext()
+	vAssert("skip2-ok", err == nil)
+	vAssert("skip2-offset", md.Offset == secs[1].off)
+	vAssert("skip2-source-offset", md.SourceOffset == secs[1].off+uint64(base))
+	_, err = br.Next()
+	vAssert("then-eof", err == io.EOF)
+	vCover("two-byte-prefix-after-next", L == 122 && !first)
+	vCover("one-byte-prefix-after-next", L == 121 && !first)
+}
